@@ -27,7 +27,11 @@ EXTRA = "EMA3"
 def mk(label):
     """'RSI2' or 'RSI2@T2' (member on its own timeframe)."""
     base, _, tf = label.partition("@")
-    return make(BY_LABEL[base], **({"timeframe": tf} if tf else {}))
+    tf, _, fill = tf.partition("+")
+    kw = {"timeframe": tf} if tf else {}
+    if fill:
+        kw["timeframe_fill"] = True
+    return make(BY_LABEL[base], **kw)
 
 
 def nm_(label):
@@ -59,33 +63,53 @@ def snap_eq(a, b):
             if da[k] != db[k]:
                 return False
         else:
-            for c in (da[k] if k in da else db[k]):
-                if c[6] or c[7]:
-                    return False
+            for group in (da[k] if k in da else db[k]):
+                for c in group:
+                    if c[6] or c[7]:
+                        return False
     return True
 
 
 def snapshot(hx):
-    return tuple((k, canon_candles(m.candles)) for k, m in sorted(hx._candles.items()))
+    """Readings per effective timeframe, independent of WHICH manager object holds them: managers that collapse to the same
+    timeframe and agree on their candles (timestamp, OHLCV) are merged, their readings united per candle. (After
+    remove + re-add an indicator may legitimately live on its own manager for the timeframe it had adopted.)"""
+    groups = {}
+    for key, m in sorted(hx._candles.items()):
+        tf = m.timeframe or "base"
+        cs = canon_candles(m.candles)
+        shape = tuple(c[:6] for c in cs)
+        g = groups.setdefault(tf, [])
+        for entry in g:
+            if entry[0] == shape:
+                entry[1] = tuple(c[:6] + (tuple(sorted(set(c[6]) | set(d[6]))), tuple(sorted(set(c[7]) | set(d[7])))) for c, d in zip(entry[1], cs))
+                break
+        else:
+            g.append([shape, cs])
+    return tuple((tf, tuple(e[1] for e in g)) for tf, g in sorted(groups.items()))
 
 
 def canon_full(st):
-    # removed-but-kept objects are part of the state: their cursor fields (e.g. _initialised) decide what a re-add does
-    return (snapshot(st.hx), tuple(sorted(st.hx._indicators)), st.pos,
-            tuple(sorted((k, lab, _tree(obj), canon_candles(obj.candles)) for k, (lab, obj) in st.removed.items())),
-            tuple(sorted((k, _tree(v)) for k, v in st.hx._indicators.items())))
+    """Deduplication key = deep snapshot of the WHOLE object graph (every instance attribute of the Hexital, its managers,
+    candles, indicators, helpers, and of removed-but-kept indicator objects), not a hand-picked set of fields: any hidden
+    state a change introduces (a cache, a cursor, a flag) keeps states apart, so merging is sound by construction."""
+    from .c19 import deep
+    return deep((st.hx, {k: v[1] for k, v in st.removed.items()}, st.pos))
 
 
 _twin_cache = {}
 
 
+HKW = {}  # Hexital-level settings of the item being searched (set by bfs / replay)
+
+
 def twin_snapshot(reg, raw, pos):
     """Batch state of a fresh Hexital holding `reg` over the first pos candles."""
-    key = (tuple(reg), pos, id(raw))
+    key = (tuple(reg), pos, id(raw), tuple(sorted(HKW.items())))
     r = _twin_cache.get(key)
     if r is None:
         from hexital import Hexital
-        hx = Hexital("t", fresh(raw[:pos]), [mk(l) for l in reg])
+        hx = Hexital("t", fresh(raw[:pos]), [mk(l) for l in reg], **HKW)
         hx.calculate()
         r = _twin_cache[key] = snapshot(hx)
     return r
@@ -94,9 +118,9 @@ def twin_snapshot(reg, raw, pos):
 def initial_states(reg, raw):
     from hexital import Hexital
     out = []
-    out.append(("empty", St(Hexital("h", [], [mk(l) for l in reg]), 0, tuple(reg), True)))
-    out.append(("preloaded", St(Hexital("h", fresh(raw[:4]), [mk(l) for l in reg]), 4, tuple(reg), False)))
-    h = Hexital("h", fresh(raw[:4]), [mk(l) for l in reg])
+    out.append(("empty", St(Hexital("h", [], [mk(l) for l in reg], **HKW), 0, tuple(reg), True)))
+    out.append(("preloaded", St(Hexital("h", fresh(raw[:4]), [mk(l) for l in reg], **HKW), 4, tuple(reg), False)))
+    h = Hexital("h", fresh(raw[:4]), [mk(l) for l in reg], **HKW)
     h.calculate()
     out.append(("calculated", St(h, 4, tuple(reg), True)))
     return out
@@ -175,10 +199,13 @@ def kind_of(reg):
 
 
 def bfs(item):
-    prop, tier, reg, depth, word = item
+    prop, tier, reg, depth, word = item[:5]
+    HKW.clear()
+    HKW.update(dict(item[5]) if len(item) > 5 else {})
+    gaps = item[6] if len(item) > 6 else None
     bind_repo()
     rep = Report()
-    raw = raw_stream(word)
+    raw = raw_stream(word, gaps=gaps) if gaps else raw_stream(word)
     _twin_cache.clear()
     hz = 5.0
     seen = {}
@@ -190,7 +217,7 @@ def bfs(item):
         if c not in seen:
             seen[c] = (tag,)
             frontier.append((st, (tag,), 0))
-    kinds = kind_of(reg)
+    kinds = kind_of(reg) + ("|" + ",".join(f"{k}={v}" for k, v in sorted(HKW.items())) if HKW else "")
     alone = {}
 
     def alone_list(label, pos):
@@ -198,7 +225,7 @@ def bfs(item):
         if key not in alone:
             from hexital import Hexital
             ind = mk(label)
-            h = Hexital("a", fresh(raw[:pos]), [ind])
+            h = Hexital("a", fresh(raw[:pos]), [ind], **HKW)
             h.calculate()
             alone[key] = [cnum(x) for x in ind.as_list()]
         return alone[key]
@@ -221,7 +248,7 @@ def bfs(item):
             if not ok:
                 last = path[-1] if len(path) > 1 else ("init",)
                 rep.violation(f"C14|converge|{kinds}|after-{last[0] if isinstance(last, tuple) else last}" + ("|raised" if err else ""),
-                              {"reg": reg, "word": word, "path": path, "oracle": "converge", "error": err})
+                              {"reg": reg, "word": word, "path": path, "oracle": "converge", "error": err, "hkw": dict(HKW), "gaps": gaps})
                 continue  # downstream of a corrupted state is consequence, not a new finding
         if d >= depth:
             rep.inc("frontier_at_bound")
@@ -235,12 +262,12 @@ def bfs(item):
                 with deadline(hz):
                     apply(nxt, op, raw)
             except Horizon:
-                rep.violation(f"{prop}|horizon|{kinds}|{op[0]}", {"reg": reg, "word": word, "path": path + (op,), "oracle": "horizon"})
+                rep.violation(f"{prop}|horizon|{kinds}|{op[0]}", {"reg": reg, "word": word, "path": path + (op,), "oracle": "horizon", "hkw": dict(HKW), "gaps": gaps})
                 continue
             except Exception as e:
                 rep.inc("transitions")
                 rep.violation(f"{prop}|raised|{kinds}|{op[0]}|{type(e).__name__}",
-                              {"reg": reg, "word": word, "path": path + (op,), "oracle": "raised", "error": repr(e)})
+                              {"reg": reg, "word": word, "path": path + (op,), "oracle": "raised", "error": repr(e), "hkw": dict(HKW), "gaps": gaps})
                 continue
             rep.inc("transitions")
             rep.inc("executions")
@@ -276,7 +303,7 @@ def bfs(item):
                             bad = f"other-changed-by-{op[0]}"
                             break
             if bad:
-                rep.violation(f"{prop}|{bad}|{kinds}", {"reg": reg, "word": word, "path": path + (op,), "oracle": bad})
+                rep.violation(f"{prop}|{bad}|{kinds}", {"reg": reg, "word": word, "path": path + (op,), "oracle": bad, "hkw": dict(HKW), "gaps": gaps})
                 continue  # do not expand a corrupted successor
             c = canon_full(nxt)
             if c not in seen:
@@ -299,7 +326,9 @@ def replay(case):
     bind_repo()
     from hexital import Hexital
     reg = tuple(case["reg"])
-    raw = raw_stream(case["word"])
+    HKW.clear()
+    HKW.update(case.get("hkw") or {})
+    raw = raw_stream(case["word"], gaps=case["gaps"]) if case.get("gaps") else raw_stream(case["word"])
     path = case["path"]
     prop = "C13" if case["oracle"].startswith("other-changed") else "C14"
     tag = path[0]
@@ -328,7 +357,7 @@ def replay(case):
             if nm == target:
                 continue
             ind = mk(l)
-            h = Hexital("a", fresh(raw[:st.pos]), [ind])
+            h = Hexital("a", fresh(raw[:st.pos]), [ind], **HKW)
             h.calculate()
             if [cnum(x) for x in st.hx.indicator(nm).as_list()] != [cnum(x) for x in ind.as_list()]:
                 return True
@@ -379,6 +408,12 @@ def main(prop, tier):
         depth = 4 if tier == "quick" else 5
         for reg in C14_SETS:
             items.append((prop, tier, reg, depth, word))
+        for reg in (("EMA2",), ("RSI2", "SMA2"), ("ST2",), ("EMA2@T2",)):
+            items.append((prop, tier, reg, depth, word, (("candlestick_type", "HA"),)))
+        for reg in (("SMA2",), ("MACD232", "OBV"), ("STOCH222@T4",)):
+            items.append((prop, tier, reg, depth, word, (("timeframe", "T2"),)))
+        for reg in (("SMA2@T2", "EMA2"), ("RSI2@T2",)):
+            items.append((prop, tier, reg, depth, word, (("timeframe_fill", True),), "tt2t5tt2t"))
             if tier != "quick":
                 items.append((prop, tier, reg, depth, STREAM_WORDS[(var["rot"] + 1) % 3]))
     else:
@@ -390,6 +425,13 @@ def main(prop, tier):
         for t in trip:
             for perm in itertools.permutations(t):
                 items.append((prop, tier, perm, depth, word))
+        # members on their own (shared / differently spelled / fill-flagged) timeframes over a stream with gaps
+        tfp = [("SMA2@T2", "EMA2@T2"), ("SMA2@T2", "EMA2@T2+fill"), ("SMA2@T2+fill", "EMA2@T2"), ("RSI2@S120", "OBV@S120"),
+               ("SMA2@t2", "EMA2@T2"), ("ATR2@T2", "TR@T4"), ("BBANDS2@T4", "SMA2@T2"), ("MACD232@S120", "EMA2@T2"), ("ST2@T2+fill", "OBV")]
+        for a, b in tfp:
+            for perm in ((a, b), (b, a)):
+                items.append((prop, tier, perm, depth, word, (), "tt2t5tt2t"))
+                items.append((prop, tier, perm, depth, word, (("timeframe_fill", True),), "tt2t5tt2t"))
     rep = merge_all(pmap(bfs, items, chunksize=2))
     if prop == "C14":
         rule = ("breadth-first search from 3 initial states (empty, pre-loaded not calculated, calculated) over the menu {append 1|2, "
